@@ -752,7 +752,8 @@ def loop_protocol(pm, ctx):
     l1 = [n for n in ast.walk(f1) if isinstance(n, ast.For) and (call_name(n.iter) or "") == "self._batchify"][0]
     l2 = [n for n in ast.walk(f2) if isinstance(n, ast.For) and (call_name(n.iter) or "") == "clf._batchify"][0]
     m = {"self": "clf", "gemini": "gemini_objective"}
-    same = len(l1.body) == len(l2.body) and all(mirror_equal(a, b, m) for a, b in zip(l1.body, l2.body))
+    from ..e5_mirror import alpha_equal
+    same = (len(l1.body) == len(l2.body) and all(mirror_equal(a, b, m) for a, b in zip(l1.body, l2.body))) or alpha_equal([l1], [l2], {"self": "clf"})
     if same:
         ctx.ok("C03-e", "fit / _path steps are mirror images under self<->clf")
     else:
